@@ -15,6 +15,8 @@ part ops : ["wrap", kind]  kind in def|async|method|if|try|with|for|nested|while
            ["addarg", k, s] k-th single-line call gets one more argument (s = pos|kw|star|comma)
            ["quote", k, s]  k-th plain string literal: delimiters flipped / the other quote character put inside
            ["tuplerhs",k,s] k-th simple assignment gets a bare-tuple or lambda right-hand side
+           ["nonascii", k]  non-ASCII string statement in front of the k-th single-line call, on the same line
+           ["breakattr", k] k-th `a.b(args)` -> `(a` newline `.b(args))`
            ["mlimport"]     first one-line `from X import a, b` -> parenthesised form with one name per line
            ["dupimport"]    second binding of the first imported module in the same block, and a use of it
 file ops : ["prepend", n, style]  style in comment|blank|docstring
@@ -437,6 +439,41 @@ def op_tuplerhs(code, k, style):
     return "".join(lines)
 
 
+def op_nonascii(code, k):
+    """Put a statement with non-ASCII text in front of the k-th single-line call, on the same physical line:
+    `x = f(a)` -> `_na = "é日本"; x = f(a)` (byte and character columns of everything after it differ)."""
+    calls = _single_line_calls(code)
+    if not calls:
+        return code
+    ln = calls[k % len(calls)][0]
+    lines = code.splitlines(keepends=True)
+    line = lines[ln - 1]
+    stripped = line.lstrip()
+    if stripped.startswith(("def ", "class ", "if ", "elif ", "else", "for ", "while ", "with ", "try", "except", "finally", "@", "async ", "return ", "import ", "from ")) and not stripped.startswith("return "):
+        return code
+    indent = line[: len(line) - len(stripped)]
+    lines[ln - 1] = indent + '_na = "é日本"; ' + stripped
+    return "".join(lines)
+
+
+def op_breakattr(code, k):
+    """k-th single-line call through an attribute `a.b(args)` -> `(a\n    .b(args))`: legal layout in parentheses."""
+    calls = [c for c in _single_line_calls(code) if isinstance(c[3].func, ast.Attribute) and c[3].func.value.end_lineno == c[0]]
+    if not calls:
+        return code
+    ln, a, b, node = calls[k % len(calls)]
+    lines = code.splitlines(keepends=True)
+    line = lines[ln - 1]
+    dot = node.func.value.end_col_offset  # position right after the receiver, i.e. of the '.'
+    pre, recv, rest = _byte_slice(line, a, dot)
+    _, tail, post = _byte_slice(line, dot, b)
+    if not tail.startswith("."):
+        return code
+    indent = line[: len(line) - len(line.lstrip())]
+    lines[ln - 1] = f"{pre}({recv}\n{indent}    {tail}){post}"
+    return "".join(lines)
+
+
 def op_multiline_import(code):
     """First one-line `from X import a, b[, ...]` (top level of the seed) -> parenthesised, one name per line."""
     try:
@@ -487,6 +524,10 @@ def render_part(part, i):
         elif op[0] in ("addarg", "quote", "tuplerhs"):
             fn = {"addarg": op_addarg, "quote": op_quote, "tuplerhs": op_tuplerhs}[op[0]]
             new, dl, dc = fn(code, op[1], op[2]), 0, 0
+            if doc is not None:
+                new = code
+        elif op[0] in ("nonascii", "breakattr"):
+            new, dl, dc = (op_nonascii if op[0] == "nonascii" else op_breakattr)(code, op[1]), 0, 0
             if doc is not None:
                 new = code
         elif op[0] == "mlimport":
@@ -621,6 +662,8 @@ def part_ops():
             st.just(["alias"]),
             st.just(["dupimport"]),
             st.just(["mlimport"]),
+            st.tuples(st.just("nonascii"), st.integers(0, 5)).map(list),
+            st.tuples(st.just("breakattr"), st.integers(0, 5)).map(list),
             st.tuples(st.just("sameline"), st.integers(0, 5)).map(list),
             st.tuples(st.just("nest"), st.integers(0, 5)).map(list),
             st.tuples(st.just("addarg"), st.integers(0, 5), st.sampled_from(["pos", "kw", "star", "comma"])).map(list),
